@@ -74,7 +74,7 @@ CLAIMED: dict[str, tuple[str, str, str, str]] = {
     "C19": (
         "Lean 4 proof of error classification and printability over executable models of the parsers + differential token-level fuzz against the real code (six grammars + Factory.validate) + regex stress per pattern source",
         "Machine-checked for EVERY string: Version.parse, the string/extra constraint parsers and the version-constraint parser (any number of `,` and `||`, local labels included) fail only with the documented ValueError, and what they return prints (no IndexError/AssertionError anywhere in parse, intersect, VersionUnion.of, `_inverted`, wildcard printing \u2014 the model's walk fuel is proved sufficient); the marker grammar recogniser fails only with the syntax error; marker leaves fail only with ValueError; all 16 functions of the simplifier block can only fail with fuel/recursion or a leaf-merge error, the AttributeError/IndexError/KeyError/TypeError/RuntimeError branches are dead; parse_marker / Requirement / create_from_pep_508 are classified up to one named residue. Front ends (re, lark) are tied to the models by correspondence (accept/reject, error class, normal text on ~46k fuzz strings per quick run; 2M in thorough); every regex constant of the parser modules is pumped for super-linear back-tracking; Factory.validate is covered by the real-code oracle on type- and key-mutated mappings.",
-        TB + "The public entry points are classified without residue: parse_marker (parseMarkerTop) fails only with syntax/value errors (plus the model's own fuel/unmodelled), Requirement and create_from_pep_508 likewise (the latter may leak RecursionError from the un-guarded marker setter: allowed by the model, no input known); the simplifier preserves the leaf invariant (python_version leaves are single markers over good constraints), so its AssertionError/AttributeError branches and the assertion of convert_markers are dead. `invert` never raises lark's error on ANY grammar-accepted text (`invert_no_syntax_grammar_all`, no condition — the defect class of repo fixes 3046ca3 / 7b51c5a, whose two former counterexamples are regression theorems); for the simplifier and the public parse_marker / Requirement the same holds hypothesis-free whenever python_version and python_full_version do not both occur in the text (`parse_marker_top_syntax_is_input_not_both`, decidable `SynNotBothPy`), and is reduced to one named hypothesis (`MergeNoSyntax`: the rewritten python_full_version text of the pairing) otherwise; every bound text the version-constraint parser and algebra produce is proved free of quotes, backslashes, newlines and blanks (`VCOpsTotalT`). The re-read of printed texts is a counter in this check (it is C13's clause). Eleven defects fixed in /repo; hang-like classes (git URL regexes, 60-level random and/or nesting) and one schema gap are known findings.",
+        TB + "The public entry points are classified without residue: parse_marker (parseMarkerTop) fails only with syntax/value errors (plus the model's own fuel/unmodelled), Requirement and create_from_pep_508 likewise (the latter may leak RecursionError from the un-guarded marker setter: allowed by the model, no input known); the simplifier preserves the leaf invariant (python_version leaves are single markers over good constraints), so its AssertionError/AttributeError branches and the assertion of convert_markers are dead. `invert` never raises lark's error on ANY grammar-accepted text (`invert_no_syntax_grammar_all`, no condition — the defect class of repo fixes 3046ca3 / 7b51c5a, whose two former counterexamples are regression theorems); for the simplifier and the public parse_marker / Requirement the same holds hypothesis-free whenever python_version and python_full_version do not both occur in the text (`parse_marker_top_syntax_is_input_not_both`, decidable `SynNotBothPy`), and is reduced to one named hypothesis (`MergeNoSyntax`: the rewritten python_full_version text of the pairing) otherwise; every bound text the version-constraint parser and algebra produce is proved free of quotes, backslashes, newlines and blanks (`VCOpsTotalT`); the rewritten text of the pairing is proved to read back for plain values outside the .0-dropping case (`py_rewrite_text_reparses`); `comment_strip_guard_agrees` / `comment_strip_guard_mismatch_counterexample` name the class of the seeded changes C19-4/5 (guard and extraction of the comment stripping must use one separator). The re-read of printed texts is a counter in this check (it is C13's clause). Eleven defects fixed in /repo; hang-like classes (git URL regexes, 60-level random and/or nesting) and one schema gap are known findings.",
         "DESIGN.md §4 C19",
     ),
     "C08": (
